@@ -208,7 +208,8 @@ Fin(st, n) ==
     [] k \in CellKinds \/ k = "mall" ->
          IF nd.h # 0 THEN 2 ELSE IF ~nd.f THEN 1 ELSE Fin(st, nd.d)
     [] k = "suN" -> 0
-    [] k = "subjobs" -> IF st.subj[nd.c].ho # 0 THEN 2 ELSE IF st.subj[nd.c].oopen THEN 0 ELSE 1
+    [] k = "subjobs" ->          \* Subject::is_finished = observers.rc_deref().is_none()
+         LET on == st.nodes[st.subj[nd.c].o] IN IF on.h # 0 THEN 2 ELSE IF on.f THEN 0 ELSE 1
     [] k = "chan" -> IF nd.g THEN 1 ELSE 0
     [] OTHER -> Fin(st, nd.d)
 =============================================================================
